@@ -31,10 +31,10 @@ Proof.
 Qed.
 
 (** the flags that satisfy the discipline: everything on; dropping oversized buffers is free *)
-Definition gf (d : bool) : cflags := mkCF true true true true d true true.
+Definition gf (d : bool) : cflags := mkCF true true true true d true true true.
 Lemma discipline_gf : forall f, discipline f = true -> f = gf (drops_oversized f).
 Proof.
-  intros [a b c d e g h]; unfold discipline; simpl; intro H.
+  intros [a b c d e g h i]; unfold discipline; simpl; intro H.
   repeat (apply andb_prop in H as [H ?]); subst; reflexivity.
 Qed.
 
@@ -773,12 +773,21 @@ Section ConcP.
         eexists; reflexivity.
   Qed.
 
-  Lemma rrun_run : forall f ls s,
+  Lemma rstep_step : forall f s lr, unlock_deferred f = true ->
+    LoggerConc.rstep D R line enabled grow f s lr = step f s (fst lr).
+  Proof.
+    intros f s [l r] H. unfold LoggerConc.rstep. destruct l; destruct r; simpl; try reflexivity. rewrite H. reflexivity.
+  Qed.
+
+  Lemma rrun_run : forall f ls s, unlock_deferred f = true ->
     LoggerConc.rrun D R line enabled grow f s ls = run f s (map fst ls).
   Proof.
-    intros f ls; induction ls as [|l r IH]; intros s; simpl; [reflexivity|].
-    unfold LoggerConc.rstep. destruct (step f s (fst l)); [apply IH | reflexivity].
+    intros f ls; induction ls as [|l r IH]; intros s H; simpl; [reflexivity|].
+    rewrite rstep_step by exact H. destruct (step f s (fst l)); [apply IH; exact H | reflexivity].
   Qed.
+
+  Lemma discipline_unlock_deferred : forall f, discipline f = true -> unlock_deferred f = true.
+  Proof. intros f H. rewrite (discipline_gf f H). reflexivity. Qed.
 
   Lemma conc_discipline_flags : forall x, conc_discipline x = true -> discipline (conc_flags x) = true.
   Proof. intros x H. unfold conc_discipline in H. do 3 (apply andb_prop in H as [H _]). exact H. Qed.
@@ -811,7 +820,7 @@ Ltac witness_run f prog :=
 
 (** without the reset a recycled buffer pollutes the next line *)
 Lemma no_reset_refuted_w :
-  let f := mkCF true true true false true true true in
+  let f := mkCF true true true false true true true true in
   exists prog sched s, wrun f (winit prog) sched = Some s /\ finished unit N s = true
     /\ ~ Permutation (dest unit N s) (wexpected prog).
 Proof.
@@ -822,7 +831,7 @@ Qed.
 
 (** the newline in a second Write: the destination sees pieces, not lines *)
 Lemma second_write_refuted_w :
-  let f := mkCF false true true true true true true in
+  let f := mkCF false true true true true true true true in
   exists prog sched s, wrun f (winit prog) sched = Some s /\ finished unit N s = true
     /\ ~ Permutation (dest unit N s) (wexpected prog).
 Proof.
@@ -835,7 +844,7 @@ Definition overlap_sched : list label :=
   [LGate 0; LPoolGet 0 None; LFormat 0; LLock 0; LWriteBegin 0;
    LGate 1; LPoolGet 1 None; LFormat 1; LLock 1; LWriteBegin 1].
 Lemma write_outside_lock_refuted_w :
-  let f := mkCF true false true true true true true in
+  let f := mkCF true false true true true true true true in
   exists prog sched, wrun f (winit prog) sched <> None /\ no_overlap None sched = false.
 Proof.
   intros f. exists [[ILog [] 1%N]; [ILog [] 2%N]], overlap_sched. split; [vm_compute; discriminate | reflexivity].
@@ -843,7 +852,7 @@ Qed.
 
 (** a clone with its own mutex: root and derived logger overlap *)
 Lemma cloned_mutex_refuted_w :
-  let f := mkCF true true false true true true true in
+  let f := mkCF true true false true true true true true in
   exists prog sched, wrun f (winit prog) sched <> None /\ no_overlap None sched = false.
 Proof.
   intros f. exists [[ILog [] 1%N]; [ILog [tt] 2%N]], overlap_sched. split; [vm_compute; discriminate | reflexivity].
@@ -855,7 +864,7 @@ Proof. vm_compute. reflexivity. Qed.
 
 (** the buffer released before the Write: the line is gone *)
 Lemma early_free_refuted_w :
-  let f := mkCF true true true true true true false in
+  let f := mkCF true true true true true true false true in
   exists prog sched s, wrun f (winit prog) sched = Some s /\ finished unit N s = true
     /\ ~ Permutation (dest unit N s) (wexpected prog).
 Proof.
@@ -866,9 +875,31 @@ Qed.
 
 (** the level gate after formatting: a disabled record is formatted *)
 Lemma late_gate_refuted_w :
-  let f := mkCF true true true true true false true in
+  let f := mkCF true true true true true false true true in
   exists prog sched s, wrun f (winit prog) sched = Some s /\ finished unit N s = true
     /\ count_formats 0 sched <> length (lines_of unit N wline wen (nth 0 prog [])).
 Proof.
   intros f. witness_run f [[@ILog unit N [] 0%N]]. vm_compute. discriminate.
 Qed.
+
+(** the Unlock not deferred: a Write that panics (recovered above the logging call) leaves the mutex locked;
+    the other goroutine can never write its record: the system is stuck before it has finished *)
+Definition wrrun f := rrun unit N wline wen wgrow f.
+Definition panic_sched : list (label * wresult) :=
+  map (fun l => (l, WOk)) [LGate 0; LPoolGet 0 None; LFormat 0; LLock 0; LWriteBegin 0]
+  ++ [(LWriteEnd 0, WPanic)] ++ map (fun l => (l, WOk)) [LGate 1; LPoolGet 1 None; LFormat 1].
+Lemma unlock_not_deferred_refuted_w :
+  let f := mkCF true true true true true true true false in
+  exists s, wrrun f (winit [[ILog [] 1%N]; [ILog [tt] 2%N]]) panic_sched = Some s
+    /\ finished unit N s = false
+    /\ step unit N wline wen wgrow f s (LLock 1) = None
+    /\ idle_done unit N (thr unit N s 0) = true.
+Proof.
+  intros f.
+  destruct (wrrun f (winit [[ILog [] 1%N]; [ILog [tt] 2%N]]) panic_sched) as [s|] eqn:E; [| vm_compute in E; discriminate].
+  exists s. split; [reflexivity|]. vm_compute in E. injection E as <-. repeat split; vm_compute; reflexivity.
+Qed.
+(** with the deferred Unlock the same schedule goes on: the second goroutine gets the lock *)
+Lemma unlock_deferred_continues :
+  exists s, wrrun good_flags (winit [[ILog [] 1%N]; [ILog [tt] 2%N]]) (panic_sched ++ [(LUnlock 0, WOk); (LLock 1, WOk)]) = Some s.
+Proof. eexists. vm_compute. reflexivity. Qed.
